@@ -236,7 +236,24 @@ def cosim_membership(rp, tr: tracer.Tracer, rng: random.Random) -> Any:
     return rp._replace(s=sim2)
 
 
-COSIM = {"throttle": cosim_throttle, "move": cosim_move, "membership": cosim_membership}
+def cosim_speed(rp, tr: tracer.Tracer, rng: random.Random) -> Any:
+    """a co-simulation user swaps in a road network with other link speeds (congestion) between steps: the state's
+    road_network field is replaced by a copy of the straight-line network with another average speed"""
+    import copy
+
+    from nrel.hive.model.roadnetwork.haversine_roadnetwork import HaversineRoadNetwork
+
+    rn = rp.s.road_network
+    if not isinstance(rn, HaversineRoadNetwork):
+        return rp
+    rn2 = copy.copy(rn)
+    rn2._AVG_SPEED_KMPH = rng.choice([8, 15, 25, 40, 40, 70])
+    sim2 = rp.s._replace(road_network=rn2)
+    tr.write({"ev": "cosim", "what": "road_network speeds", "speed": rn2._AVG_SPEED_KMPH, "d": tr.proj.advance(sim2, rp.e), "rep": []})
+    return rp._replace(s=sim2)
+
+
+COSIM = {"throttle": cosim_throttle, "move": cosim_move, "membership": cosim_membership, "speed": cosim_speed}
 
 
 def run_adv(seed: int, work: Path, trace_path: Path, *, steps: int = 40, mix: Optional[str] = None,
